@@ -88,6 +88,8 @@ class KaniJob:
 def build_and_run(prop, sites, jobs, report, replay_fn=None, parallel=8):
     """Overlay, compile once (first harness run holds the cargo lock), run harnesses in
     parallel, convert results to obligations on `report`."""
+    if os.environ.get('VERIF_DEV_NO_KANI'):
+        return None          # development aid only (never set by the registered commands)
     name = f'kani-{prop}'
     with locked(name):
         scratch = sync_scratch(name)
